@@ -190,14 +190,39 @@ theorem frame_definite (c : Cons) (cls num : Nat) (b : Bool) (hc : cls ≤ 3) (h
     · right; intro h1; exact hne ⟨h0, h1⟩
     · left; exact h0
   simp only [heoc, Bool.false_eq_true, if_false]
-  have hov : (match (lim.map (· - (hdrOctets cls b num cnt.length).length)) with
-      | some l => decide (cnt.length > l) | none => false) = false := by
-    cases hl : lim with
-    | none => rfl
-    | some l =>
-      have := hcov l hl
-      simp only [Option.map, decide_eq_false_iff_not]
-      omega
-  sorry
+  cases hl : lim with
+  | none =>
+    simp only [Option.map, Bool.false_eq_true, if_false]
+    by_cases hcer : (b && c.mode == .cer) = true
+    · simp [hcer]
+    · simp only [hcer, Bool.false_eq_true, if_false]
+      cases runG0 (op (C12.tagOf cls num) (if b = true then Content.cons ⟨.definite, c.mode⟩ else Content.prim c.mode))
+          (St (cnt ++ tail) (some cnt.length)) with
+      | error e => rfl
+      | ok r =>
+        obtain ⟨⟨res, content'⟩, g3⟩ := r
+        simp only
+        cases runG0 content'.exhausted g3 with
+        | error e => rfl
+        | ok r2 => rfl
+  | some l =>
+    have h1 := hcov l hl
+    have h2 : decide (cnt.length > l - (hdrOctets cls b num cnt.length).length) = false := by
+      simp only [decide_eq_false_iff_not]; omega
+    simp only [Option.map, h2, Bool.false_eq_true, if_false]
+    by_cases hcer : (b && c.mode == .cer) = true
+    · simp [hcer]
+    · simp only [hcer, Bool.false_eq_true, if_false]
+      cases runG0 (op (C12.tagOf cls num) (if b = true then Content.cons ⟨.definite, c.mode⟩ else Content.prim c.mode))
+          (St (cnt ++ tail) (some cnt.length)) with
+      | error e => rfl
+      | ok r =>
+        obtain ⟨⟨res, content'⟩, g3⟩ := r
+        simp only
+        cases runG0 content'.exhausted g3 with
+        | error e => rfl
+        | ok r2 =>
+          obtain ⟨u, g4⟩ := r2
+          simp only [Nat.sub_sub]
 
 end Bcder.Props.C04
